@@ -209,6 +209,37 @@ def explore(ctx, cases, loop, label=""):
     ctx.traces += len(lines)
 
 
+def reawait(ctx, rng, loop, n):
+    """A finished CoroStart awaited again must behave like a finished coroutine awaited again
+    ("cannot reuse already awaited coroutine"); oracle = CPython on the coroutine itself."""
+    for _ in range(n):
+        stmts = cm.gen_prog(rng, p_await=0.3)
+        env = cm.Env(stmts, loop)
+        c = env.main()
+        cs = cm.CoroStart(c)
+        it = cs.__await__()
+        outs = cm.drive(it, ["s:0"] + [rng.choice(SENDS) for _ in range(12)], {})
+        if outs[-1].startswith("y:"):
+            cm.finalize({"keep": ([c, it], it, env)})
+            continue
+        it2 = cs.__await__()
+        got = cm.drive(it2, ["s:0"], {})
+        env2 = cm.Env(stmts, loop)
+        c2 = env2.main()
+        r1 = cm._ref(c2)
+        cm.drive(r1, ["s:0"] + ["s:0"] * 12, {})
+        r2 = cm._ref(c2)
+        exp = cm.drive(r2, ["s:0"], {})
+        line = "reawait | " + cm.sexp(stmts)
+        ctx.case(line, ["re-await-of-finished-CoroStart"])
+        if got != exp:
+            ctx.violation("c02:cs_await:re-await", "awaiting a finished CoroStart again differs from awaiting the "
+                          "finished coroutine again", {"kind": "reawait", "prog": stmts, "source": cm.source(stmts)},
+                          expected=exp, observed=got, theorem="Asynkit.Proto.coroStartAwaitB (start_result = None branch)")
+        for x in (it, it2, r1, r2):
+            x.close()
+
+
 def corpus_cases():
     import json
     d = core.ROOT / "corpus" / PROP
@@ -268,6 +299,7 @@ def run(ctx):
                     ctx.sample(cm.case_line(*c))
                 first = False
             n -= len(cases)
+        reawait(ctx, rng, loop, 1500 if ctx.thorough() else 200)
         ex = list(exhaustive_small())
         if not ctx.thorough():
             ex = rng.sample(ex, 600)
